@@ -29,7 +29,7 @@ def make_plan(ths, tier, rnd):
             if sig.rels[f]["cols"][-1] in sig.enums and sig.rels[f]["ctor"] is None:
                 bad.append(f"define_{eql.snake(f)} creates an element of enum {sig.rels[f]['cols'][-1]}")
         plan.notes[theory] = {"api_violations": bad}
-        for _ in range(200 if thorough else 60):
+        for _ in range(100 if thorough else 60):
             plan.add(theory, histories.random_history(sig, api, rnd, rnd.randint(3, 12), 2, enum_prob=0.3))
     return plan
 
